@@ -37,10 +37,11 @@ RT_ONE = 1e-9
 def _plan(tier):
     """curves are (k_1, SD); SD = 125 / 132.5 / 100 / 60 put the knee exactly on a class amplitude at level 1"""
     if tier == "quick":
-        return [dict(curves=((5.0, 100.0), (3.0, 125.0)), edges=("regular", "irregular"), counts=(0.0, 1.0, 5000.0),
+        return [dict(curves=((5.0, 100.0), (3.0, 125.0), (5.0, 100.0, 0.1, 4.0, 1.25)), edges=("regular", "irregular"), counts=(0.0, 1.0, 5000.0),
                      forms=("histogram", "collective"), levels=(0.5, 1.0, 3.0), perms="rotations+reverse",
                      linear_on_first_curves=1)]
-    return [dict(curves=((5.0, 100.0), (3.0, 125.0), (8.0, 132.5), (3.0, 80.0), (5.0, 125.0), (8.0, 100.0)),
+    return [dict(curves=((5.0, 100.0), (3.0, 125.0), (8.0, 132.5), (3.0, 80.0), (5.0, 125.0), (8.0, 100.0),
+                         (5.0, 100.0, 0.1, 4.0, 1.25), (3.0, 125.0, 0.9, 3.0, 1.1), (5.0, 100.0, 0.025, 1.0, 1.25)),
                  edges=("regular", "irregular"), counts=(0.0, 1.0, 5000.0),
                  forms=("histogram", "collective", "histogram-with-mean"), levels=(0.5, 1.0, 1.6, 3.0), perms="all",
                  linear_on_first_curves=2),
@@ -117,6 +118,8 @@ def build(form, edges, counts, level, order=None, keep=None):
 def curve_series(curve, k2=None):
     import pandas as pd
     d = {"k_1": curve[0], "ND": 1e6, "SD": curve[1]}
+    if len(curve) > 2:          # (k_1, SD, failure_probability, TN, TS): a design curve given for P != 50 % with scatter
+        d.update({"failure_probability": curve[2], "TN": curve[3], "TS": curve[4]})
     if k2 is not None:
         d["k_2"] = k2
     return pd.Series(d)
@@ -160,7 +163,7 @@ def check_case(case):
     edges = ALL_EDGES[case["edges"]]
     form, curve, counts, level = case["form"], tuple(case["curve"]), [float(c) for c in case["counts"]], float(case["level"])
     n = len(counts)
-    k1, sd = curve
+    k1, sd = curve[:2]
     amps = [a * level for a in _amps(edges)]
     occ = [i for i in range(n) if counts[i] > 0]
     top_empty = counts[int(np.argmax(amps))] == 0
@@ -240,6 +243,17 @@ def check_case(case):
                         ev += 1
                         if not _close(dsum, 1.0, RT_ONE):
                             V(_gkey(name, k2name, below, top_empty), gassner_cycles=N, damage_sum=dsum)
+                    # the same accessor object used again on another collective with the same cycle counts but other
+                    # (not proportional) class limits must answer like a fresh one: nothing may stick to the object
+                    other = "irregular" if case["edges"] != "irregular" else "regular"
+                    if len(ALL_EDGES[other]) == len(edges) and form != "histogram-with-mean":
+                        lc2 = build(form, ALL_EDGES[other], counts, level)
+                        kept = float(np.asarray(m.gassner_cycles(lc2)))
+                        fresh = float(np.asarray(getattr(curve_series(curve, k2), acc).gassner_cycles(lc2)))
+                        ev += 2
+                        if not (kept == fresh or (math.isnan(kept) and math.isnan(fresh))):
+                            V("C11/gassner-%s/kept-accessor-object-answers-differently" % name, first_collective_edges=case["edges"],
+                              second_collective_edges=other, kept_object=kept, fresh_object=fresh)
                     dm = float(np.asarray(m.effective_damage_sum(lc)))
                     ev += 1
                     if not (0.3 <= dm <= 1.0):
